@@ -18,7 +18,12 @@ type DocOpt struct {
 	NoSpace   bool
 	OnlyASCII bool
 	Nested    bool // root is a container and containers are rarely empty (for path-based properties)
+	CastStr   bool // one string value in three spells a number, a boolean or something close to one (cross-kind accessors)
 }
+
+// CastStrings are string contents that the casting accessors of ast.Node turn into numbers and booleans, or refuse.
+var CastStrings = []string{"true", "false", "1", "0", "t", "F", "TRUE", "True", "tRUE", "-12", "+7", "1.5", "-0", "1e3", "9223372036854775807", "9223372036854775808", "-9223372036854775809", "18446744073709551616", "abc", " 1", "1 ", "NaN", "Inf", "-inf", "0x10", "0x1p-2", "1_000", "1e400", "-1e400", "", "null", "0.0", "1e-400", "00", "1.", ".5"}
+
 
 var spaces = []string{"", "", "", " ", "\n", "\t", "\r\n", "  ", " \n\t ", strings.Repeat(" ", 15), strings.Repeat(" ", 31), strings.Repeat(" ", 33), strings.Repeat(" ", 70), strings.Repeat("\n ", 40)}
 
@@ -90,6 +95,12 @@ func (g *docGen) value(depth int) {
 	case 3, 4:
 		g.b.WriteString(NumberLit(g.t, g.o.Num))
 	case 5, 6:
+		if g.o.CastStr && rapid.IntRange(0, 2).Draw(g.t, "caststr") == 0 {
+			g.b.WriteByte('"')
+			g.b.WriteString(CastStrings[rapid.IntRange(0, len(CastStrings)-1).Draw(g.t, "caststrv")])
+			g.b.WriteByte('"')
+			break
+		}
 		g.b.Write(Literal(StringBody(g.t, g.o.Str)))
 	case 7, 8:
 		n := g.width()
